@@ -97,7 +97,7 @@ func pathTo(pred map[*ssa.Function]*callgraph.Edge, fn *ssa.Function) []string {
 
 // inLoop reports whether block b lies on a CFG cycle.
 func inLoop(b *ssa.BasicBlock) bool {
-	if s := siteOf(b.Parent()); s != nil && rawTop(b.Parent()) == b.Parent() && inLoop(s.Block()) {
+	if s := siteOf(b.Parent()); s != nil && inLoop(s.Block()) {
 		return true
 	}
 	seen := map[*ssa.BasicBlock]bool{}
